@@ -43,6 +43,7 @@ class G:
         self.r, self.N, self.S = rng, N, S
         self.st = SQLType[dialect]
         self.hive = dialect == "HIVE"
+        self.wide = True
 
     def ch(self, xs): return self.r.choice(xs)
     def p(self, x): return self.r.chance(x)
@@ -128,6 +129,10 @@ class G:
         """an expression for the slots the grammar fills with its compute-level rule (GROUP BY, ORDER BY, IN lists, CAST argument, DEFAULT, ...):
         the outermost node is an element, a unary or a binary computation; anything may sit below it (the printer parenthesises it)"""
         N = self.N
+        if self.wide and self.p(0.4):
+            # the printer brackets a child above the compute level in these slots (`source_with_parenthesis(…, 8)`), so any expression is in the
+            # grammar's range there: the bracket decision of every such site is exercised
+            return self.expr(d)
         for _ in range(4):
             e = self.expr(d)
             if not isinstance(e, (N.ASTOperatorExpressionBase, N.ASTBetweenExpression, N.ASTExistsExpression, N.ASTOperatorConditionExpression, N.ASTLogicalNotExpression,
@@ -227,7 +232,7 @@ class G:
         ty = self.ch(["int", "varchar", "decimal", "text", "bigint", "STRING", "datetime", "char"])
         params = None
         if ty in ("varchar", "decimal", "char") and self.p(0.7) or (mysql and self.p(0.3)):
-            params = tuple(N.ASTLiteralExpression(value=str(self.n(1, 30))) for _ in range(2 if ty == "decimal" else 1))
+            params = tuple((self.cexpr(3) if mysql and self.p(0.06) else N.ASTLiteralExpression(value=str(self.n(1, 30)))) for _ in range(2 if ty == "decimal" else 1))
         kw = {}
         if mysql:
             kw = dict(is_unsigned=self.p(0.1), is_zerofill=self.p(0.05), character_set=self.opt(lambda: "utf8", 0.1), collate=self.opt(lambda: "utf8_bin", 0.1),
